@@ -6,7 +6,7 @@ import ast, json, os, sys
 sys.path.insert(0, os.path.dirname(os.path.abspath(__file__)))
 sys.path.insert(0, "/repo")
 from pyvc.engine import Engine
-from pyvc.symexec import Frame, loop_header
+from pyvc.symexec import Frame, loop_header, local_names
 e = Engine()
 out = {}
 for fq, c in sorted(e.contracts.items()):
@@ -18,6 +18,7 @@ for fq, c in sorted(e.contracts.items()):
     for node in ast.walk(fref.node):
         if id(node) in fr.loop_ord and fr.loop_ord[id(node)] in c["loops"]:
             heads[str(fr.loop_ord[id(node)])] = loop_header(node)
+    heads["locals"] = local_names(fref.node)
     out[fq] = heads
 json.dump(out, open(os.path.join(os.path.dirname(os.path.abspath(__file__)), "contracts", "loop_headers.json"), "w"), indent=1, sort_keys=True)
 print(len(out), "functions,", sum(len(v) for v in out.values()), "annotated loops")
